@@ -10,7 +10,7 @@ import (
 
 func init() {
 	register("C14", runC14,
-		"Decides structural necessary conditions of 'accounting equals ground truth': every incremental add has an exact inverse remove under the same status predicate; struct and vector representations are updated in lock-step; status updates are reset → store → add; the accounting fields are written only by the accounting functions (reviewed writer table); the status groups form the required lattice.",
+		"Decides structural necessary conditions of 'accounting equals ground truth': every incremental add has an exact inverse remove under the same status predicate; struct and vector representations are updated in lock-step; status updates are reset → store → add; the accounting fields are written only by the accounting functions (reviewed writer table); the status groups form the required lattice. Also (shared with C13): an undo re-adds the task to its node only after the task's fields were restored; handlers fire after the node update.",
 		"equality with from-scratch recomputation for every history (needs execution or a proof over the data structures)")
 }
 
